@@ -625,7 +625,8 @@ func (r *Run) stepCh(s Step) {
 				r.emit(Event{"ev": "close", "res": resCode(err)})
 			}
 		}
-		r.wopen = false
+		// a chronicler whose Close failed keeps its writer: the next Write does not reopen anything
+		r.wopen = r.wopen && err != nil && s.Same
 		if !s.Same {
 			r.ch = nil // the swamp is gone; the next session summons a new chronicler (Load)
 		}
